@@ -88,7 +88,20 @@ let drvv side f =
       let (_, w), r = unopt (ss_drive_v_all script bufs) in
       Printf.sprintf "%s | %s" (show_res r) (hexo w.w_received)
 
+(* a stream over the real stdout / stderr, locked between two write_all calls: the strip state is carried *)
+let lk8 side f =
+  let mode = List.nth f 0 in
+  let h1 = nlist (unhex (List.nth f 2)) and h2 = nlist (unhex (List.nth f 3)) in
+  let strip = (mode = "never" || mode = "strip") in
+  match side with
+  | `Spec -> hexo (if strip then spec_strip (h1 @ h2) else h1 @ h2)
+  | `Model ->
+      let m = if strip then MStrip else MPass in
+      let (_, w), _ = unopt (run_ops true m sb_new (writer_of []) [ OWriteAll h1; OWriteAll h2 ]) in
+      hexo w.w_received
+
 let () =
+  register "lk8" lk8;
   register "drvv" drvv;
   register "strm" strm;
   register "drv" drv;
